@@ -61,13 +61,16 @@ struct Out {
 }
 
 fn run_world(ctx: &mut Ctx, steps: Vec<Step>, npeers: usize) {
+    // the application does other things between its calls: 0..3 co-operative yields after each
+    // step let background handshakes advance into the middle of the history
+    let gaps: Vec<u32> = steps.iter().map(|_| ctx.plan(4) as u32).collect();
     let out = Rc::new(RefCell::new(Out { viol: vec![], done: false, peers: (0..npeers).map(|_| None).collect(), failed: vec![false; npeers], call_errors: 0, kept: Vec::new() }));
     let o2 = out.clone();
     let steps2 = steps.clone();
     rt::task::spawn_local("app", async move {
         let mut sub = SubSocket::new();
         let ep = sub.bind("tcp://127.0.0.1:0").await.expect("bind").to_string();
-        for st in &steps2 {
+        for (step_no, st) in steps2.iter().enumerate() {
             match st {
                 Step::Subscribe(t) => {
                     if sub.subscribe(TOPICS[*t]).await.is_err() {
@@ -118,6 +121,9 @@ fn run_world(ctx: &mut Ctx, steps: Vec<Step>, npeers: usize) {
                     }
                 }
                 Step::Quiesce => rt::task::idle().await,
+            }
+            for _ in 0..gaps[step_no] {
+                rt::task::yield_now().await;
             }
         }
         rt::task::idle().await;
@@ -290,10 +296,10 @@ pub fn def() -> PropDef {
         rule: "one case = a seeded history of subscribe/unsubscribe calls over topics {'', a, ab, b} interleaved with scripted publishers joining by accept (background handshake, concurrent with the following calls) or by connect, quiescent points, and in one stratum one publisher's connection failing (close / reset / write error); join_points enumerates the position of an accept-join among four calls x early publisher present or not; each publisher's inbound tap is folded into topic counts and compared at quiescence; non-trivial = at least two publishers judged; distinct = distinct (plan, schedule, transport) hashes",
         assumptions: &["with duplicate subscribes of one topic only agreement between peers is required (the statement does not choose between set and multiset semantics)", "a publisher counts as connected once the socket has written its READY to it"],
         strata: vec![
-            Stratum { name: "clean", quick: 40_000, thorough: 1_500_000, exhaustive: (false, false), run: clean, what: "no topic subscribed twice, no failures: every publisher's view equals the socket's set" },
-            Stratum { name: "with_duplicates", quick: 20_000, thorough: 500_000, exhaustive: (false, false), run: with_duplicates, what: "duplicate subscribes allowed: publishers must agree" },
-            Stratum { name: "one_peer_fails", quick: 30_000, thorough: 1_000_000, exhaustive: (false, false), run: one_peer_fails, what: "one publisher's connection fails; the others must still be updated" },
-            Stratum { name: "join_points", quick: 20_000, thorough: 500_000, exhaustive: (false, false), run: join_points, what: "accept-join enumerated at every position among four calls" },
+            Stratum { name: "clean", quick: 120_000, thorough: 1_500_000, exhaustive: (false, false), run: clean, what: "no topic subscribed twice, no failures: every publisher's view equals the socket's set" },
+            Stratum { name: "with_duplicates", quick: 50_000, thorough: 500_000, exhaustive: (false, false), run: with_duplicates, what: "duplicate subscribes allowed: publishers must agree" },
+            Stratum { name: "one_peer_fails", quick: 80_000, thorough: 1_000_000, exhaustive: (false, false), run: one_peer_fails, what: "one publisher's connection fails; the others must still be updated" },
+            Stratum { name: "join_points", quick: 60_000, thorough: 500_000, exhaustive: (false, false), run: join_points, what: "accept-join enumerated at every position among four calls" },
         ],
     }
 }
